@@ -7,6 +7,11 @@ CHECKS = {
    text="Every history of update/re-parent/remove/base-frame/remove-geometry/query/export/copy actions over 4 frames and 2 exact matrices up to the stated depth is executed on the real SceneGraph and compared, in every reached state, with a dict-based reference forest (all ordered frame pairs, flattened export, edge-list rebuild, copy). States are merged on a canonical form that includes both caches and the hash memo. Histories are the quantifier of the property; a bounded exhaustive search over them is the strongest practical statement.",
    note="Trusts numpy matrix arithmetic and the reference forest (60 lines). Bounded by depth / deviation bound reported in the evidence; 4 frames, matrices exact in binary64.",
    design="3.C09"),
+ "C02": dict(level="model_checking", engine="E1",
+   technique="explicit-state BFS to a fixpoint over abstract (dirty flag, memo present, memo valid) states of a real TrackedArray and its derived handles; exhaustive enumeration of short container programs",
+   text="The dirty-flag protocol is a finite state machine once byte values are abstracted to 'memo valid or not'. The search runs the real TrackedArray through every view-creation / write-route / neutral-operation / hash-read action from every reached abstract state until the frontier closes (a fixpoint, reported in the evidence), and in every state hashes every live tracked handle on its own fresh replay against the hash of its current bytes and of a fresh array. Containers (DataStore, Trimesh, visuals, paths, point cloud, scene) are covered by all programs [pre-hash] x [handle kind] x [mid hash] x write route.",
+   note="Trusts numpy and xxhash. Known findings (numpy write routes that bypass the subclass, untracked aliases) are listed in known_findings.json; exploration below a violating transition is pruned.",
+   design="3.C02"),
 }
 
 NA = {}
